@@ -122,16 +122,20 @@ def gen_cases(rng, thorough):
         so = rng.random() < 0.7
         st = rng.random() < 0.7
         cases.append(dict(task="compress", inputs=[rtdc_in(old_logs=True)],
-                          params={}, stale_out=[so], stale_tmp=[st]))
+                          params=dict(force=(rep == 0)),
+                          stale_out=[so], stale_tmp=[st]))
         cases.append(dict(task="repack",
                           inputs=[rtdc_in(old_logs=rng.random() < .5)],
-                          params=dict(strip_logs=rng.random() < 0.3),
+                          params=dict(strip_logs=rng.random() < 0.3,
+                                      strip_basins=(rep == 0)),
                           stale_out=[rng.random() < 0.5],
                           stale_tmp=[rng.random() < 0.5]))
         cases.append(dict(task="condense",
                           inputs=[rtdc_in(old_logs=True, kinds=[
                               "scalar", "image", "mask", "contour"])],
-                          params=dict(store_ancillary_features=rng.random() < .7),
+                          params=dict(
+                              store_ancillary_features=rng.random() < .7,
+                              store_basin_features=(rep != 0)),
                           stale_out=[rng.random() < 0.5],
                           stale_tmp=[rng.random() < 0.5]))
         nin = rng.choice([2, 2, 3])
@@ -152,7 +156,9 @@ def gen_cases(rng, thorough):
                           inputs=[rtdc_in(nev=nev, kinds=[
                               "scalar", "image", "mask"])],
                           params=dict(split_events=se,
-                                      same_dir=rng.random() < 0.5),
+                                      same_dir=rng.random() < 0.5,
+                                      skip_initial=(rep != 0),
+                                      skip_final=(rep == 1)),
                           stale_out=[rng.random() < 0.5 for _ in range(nout)],
                           stale_tmp=[False] * nout))
         # the measurement fits into ONE part: event count exactly at the
@@ -167,7 +173,10 @@ def gen_cases(rng, thorough):
                           stale_out=[rng.random() < 0.4],
                           stale_tmp=[False]))
         cases.append(dict(task="tdms2rtdc", fixtures=[TDMS_SMALL[rep % 2]],
-                          params=dict(dir_mode=False),
+                          params=dict(dir_mode=False,
+                                      compute_features=(rep == 0),
+                                      skip_initial=(rep != 0),
+                                      skip_final=(rep == 1)),
                           stale_out=[rng.random() < 0.5],
                           stale_tmp=[rng.random() < 0.5]))
     # requested output names with an arbitrary suffix whose stem is the stem
@@ -191,10 +200,36 @@ def gen_cases(rng, thorough):
                       params=dict(dir_mode=True),
                       stale_out=[rng.random() < 0.5 for _ in range(2)],
                       stale_tmp=[rng.random() < 0.5 for _ in range(2)]))
-    if thorough:
-        cases.append(dict(task="condense", fixtures=[TDMS_SMALL[0]],
-                          params=dict(store_ancillary_features=False),
-                          stale_out=[True], stale_tmp=[False]))
+    # .tdms inputs for split / join / condense (one of them per quick run)
+    extra = [
+        dict(task="split", fixtures=[TDMS_SMALL[0]],
+             params=dict(split_events=300, same_dir=False,
+                         skip_initial=rng.random() < 0.5,
+                         skip_final=rng.random() < 0.5),
+             stale_out=[rng.random() < 0.5, False], stale_tmp=[False, False]),
+        dict(task="join", fixtures=list(TDMS_SMALL), params={},
+             stale_out=[False], stale_tmp=[True]),
+        # (condense of a .tdms input is not used: its result is branded by
+        # the untagged dclab build only and cannot be re-opened here)
+    ]
+    cases += extra if thorough else [rng.choice(extra)]
+    # check_suffix=False: inputs that do not end in .rtdc (h5py-level tasks)
+    for task in (["compress", "repack"] if thorough
+                 else [rng.choice(["compress", "repack"])]):
+        iname = rng.choice(["x.h5", "x", "x.hdf5~", "x.rtdc.bak"])
+        cases.append(dict(task=task, inputs=[rtdc_in(nev=5, kinds=[
+            "scalar", "image", "mask"])], in_names=[iname],
+            params=dict(check_suffix=False), out_name="x.rtdc",
+            stale_out=[rng.random() < 0.3], stale_tmp=[rng.random() < 0.3]))
+    # how the paths are handed to the task, and through which entry point
+    for c in cases:
+        # (tdms2rtdc on a folder computes relative_to(path_tdms) of resolved
+        # paths: only absolute, resolved folders work there)
+        c["params"]["path_style"] = "abs" if c["params"].get("dir_mode") \
+            else rng.choice(["abs", "abs", "rel", "dotdot", "symlink"])
+        c["params"]["via_argv"] = (rng.random() < 0.3
+                                   and not c["params"].get("check_suffix")
+                                   is False)
     return cases
 
 
@@ -264,6 +299,14 @@ def build_template(case, root):
             ins = tdms
             outs = [w / "tout" / p.relative_to(tin).with_suffix(".rtdc")
                     for p in tdms]
+        elif task == "split":
+            ins = tdms[:1]
+            (w / "sp").mkdir()
+            outs = [w / "sp" / ("%s_%04d.rtdc" % (ins[0].stem, i + 1))
+                    for i in range(len(case["stale_out"]))]
+        elif task == "join":
+            ins = tdms
+            outs = [w / "out.rtdc"]
         else:
             ins = tdms[:1]
             outs = [w / "out.rtdc"]
@@ -272,6 +315,8 @@ def build_template(case, root):
     else:
         for j, spec_in in enumerate(case["inputs"]):
             p = w / ("in%d.rtdc" % j)
+            if case.get("in_names"):
+                p = w / case["in_names"][j]
             _write_input(p, dict(spec_in, order=j))
             ins.append(p)
         all_inputs = list(ins)
@@ -285,6 +330,18 @@ def build_template(case, root):
         else:
             outs = [w / "out.rtdc"]
     temps = [o.with_suffix(".rtdc~") for o in outs]
+    # bystanders: files of the same directory that are none of the task's
+    # business; they must be byte-identical afterwards
+    for o in outs[:1]:
+        o.parent.mkdir(parents=True, exist_ok=True)
+        for extra in (o.with_name(o.name + ".bak"),
+                      o.with_name(o.stem + "_old.rtdc"),
+                      o.parent / "notes.txt", w / "in0_old.rtdc"):
+            if extra not in outs and extra not in temps \
+                    and extra not in all_inputs:
+                extra.write_bytes(b"bystander " + extra.name.encode() * 3)
+                all_inputs.append(extra)
+    (w / "_sub").mkdir(exist_ok=True)
     stale_sha = {}
     for i, o in enumerate(outs):
         if case["stale_out"][i]:
@@ -312,41 +369,125 @@ def sha(path):
     return h.hexdigest()
 
 
+def _styled(w, rel, style):
+    """The path `w/rel` written the way `style` says (they all resolve to the
+    same file)."""
+    w = pathlib.Path(w)
+    if style == "rel":
+        return pathlib.Path(rel)              # cwd is w
+    if style == "dotdot":
+        return w / "_sub" / ".." / rel
+    if style == "symlink":
+        link = w.parent / "wl"
+        if not link.is_symlink():
+            try:
+                os.symlink(w, link)
+            except FileExistsError:
+                pass
+        return link / rel
+    return w / rel
+
+
 def run_task(case, lay, w):
-    """Call the CLI task function on the files in directory w."""
+    """Call the CLI task on the files in directory w - through the Python
+    function or through its argparse entry point (sys.argv)."""
     from dclab import cli
     w = pathlib.Path(w)
-    ins = [w / p for p in lay["ins"]]
-    outs = [w / p for p in lay["outs"]]
-    task = case["task"]
     par = case["params"]
-    if lay.get("req"):
-        # what the user asked for; lay["outs"] is where the result must appear
-        outs = [w / p for p in lay["req"]]
-    with contextlib.redirect_stdout(io.StringIO()):
-        if task == "compress":
-            cli.compress(path_in=ins[0], path_out=outs[0])
-        elif task == "repack":
+    style = par.get("path_style", "abs")
+    ins = [_styled(w, p, style) for p in lay["ins"]]
+    outs = [_styled(w, p, style) for p in (lay.get("req") or lay["outs"])]
+    # lay["req"]: what the user asked for; lay["outs"]: where it must appear
+    task = case["task"]
+    argv = par.get("via_argv", False)
+    cwd = os.getcwd()
+    old_argv = list(sys.argv)
+    if style == "rel":
+        os.chdir(w)
+    try:
+        with contextlib.redirect_stdout(io.StringIO()):
+            _dispatch(cli, task, par, ins, outs, w, style, argv)
+    finally:
+        sys.argv = old_argv
+        if style == "rel":
+            os.chdir(cwd)
+
+
+def _dispatch(cli, task, par, ins, outs, w, style, argv):
+    if task == "compress":
+        if argv:
+            sys.argv = ["dclab-compress", str(ins[0]), str(outs[0])] + (
+                ["--force"] if par.get("force") else [])
+            cli.compress()
+        else:
+            cli.compress(path_in=ins[0], path_out=outs[0],
+                         force=par.get("force", False),
+                         check_suffix=par.get("check_suffix", True))
+    elif task == "repack":
+        if argv:
+            sys.argv = ["dclab-repack", str(ins[0]), str(outs[0])] + (
+                ["--strip-logs"] if par.get("strip_logs") else []) + (
+                ["--strip-basins"] if par.get("strip_basins") else [])
+            cli.repack()
+        else:
             cli.repack(path_in=ins[0], path_out=outs[0],
-                       strip_logs=par.get("strip_logs", False))
-        elif task == "condense":
+                       strip_logs=par.get("strip_logs", False),
+                       strip_basins=par.get("strip_basins", False),
+                       check_suffix=par.get("check_suffix", True),
+                       ret_path=True)
+    elif task == "condense":
+        anc = par.get("store_ancillary_features", True)
+        bas = par.get("store_basin_features", True)
+        if argv:
+            sys.argv = ["dclab-condense", str(ins[0]), str(outs[0])] + (
+                [] if anc else ["--no-ancillary-features"]) + (
+                [] if bas else ["--no-basin-features"])
+            cli.condense()
+        else:
             cli.condense(path_in=ins[0], path_out=outs[0],
-                         store_ancillary_features=par.get(
-                             "store_ancillary_features", True))
-        elif task == "join":
-            cli.join(paths_in=list(ins), path_out=outs[0])
-        elif task == "split":
+                         store_ancillary_features=anc,
+                         store_basin_features=bas,
+                         check_suffix=par.get("check_suffix", True))
+    elif task == "join":
+        if argv:
+            sys.argv = ["dclab-join"] + [str(p) for p in ins] + [
+                "-o", str(outs[0])]
+            cli.join()
+        else:
+            cli.join(paths_in=list(ins), path_out=outs[0], ret_path=True)
+    elif task == "split":
+        si, sf = par.get("skip_initial", True), par.get("skip_final", True)
+        if argv and si == sf:
+            sys.argv = ["dclab-split", str(ins[0]), "--split-events",
+                        str(par["split_events"])] + (
+                [] if par.get("same_dir") else
+                ["--path_out", str(outs[0].parent)]) + (
+                [] if si else ["--include-empty-boundary-images"])
+            cli.split()
+        else:
             cli.split(path_in=ins[0],
                       path_out=None if par.get("same_dir")
                       else outs[0].parent,
-                      split_events=par["split_events"])
-        elif task == "tdms2rtdc":
-            if par.get("dir_mode"):
-                cli.tdms2rtdc(path_tdms=w / "tin", path_rtdc=w / "tout")
-            else:
-                cli.tdms2rtdc(path_tdms=ins[0], path_rtdc=outs[0])
+                      split_events=par["split_events"],
+                      skip_initial_empty_image=si,
+                      skip_final_empty_image=sf, ret_out_paths=True)
+    elif task == "tdms2rtdc":
+        si, sf = par.get("skip_initial", True), par.get("skip_final", True)
+        cf = par.get("compute_features", False)
+        src = _styled(w, "tin", style) if par.get("dir_mode") else ins[0]
+        dst = _styled(w, "tout", style) if par.get("dir_mode") else outs[0]
+        if argv and si == sf:
+            sys.argv = ["dclab-tdms2rtdc", str(src), str(dst)] + (
+                ["--compute-ancillary-features"] if cf else []) + (
+                [] if si else ["--include-empty-boundary-images"])
+            cli.tdms2rtdc()
         else:
-            raise ValueError(task)
+            cli.tdms2rtdc(path_tdms=pathlib.Path(src),
+                          path_rtdc=pathlib.Path(dst), compute_features=cf,
+                          skip_initial_empty_image=si,
+                          skip_final_empty_image=sf)
+    else:
+        raise ValueError(task)
 
 
 # --------------------------------------------------------------------------
@@ -376,6 +517,7 @@ def record_job(idx):
         err = repr(e)
     finally:
         ct.set_recorder(None)
+    t_task = time.time() - t0
     lay = info["lay"]
     roles = ct.Roles([os.path.join(w, p) for p in lay["ins"]],
                      [os.path.join(w, p) for p in lay["outs"]],
@@ -393,7 +535,7 @@ def record_job(idx):
                 viol[i] = ["check_dataset failed: %r" % (e,)]
     return dict(idx=idx, ref=d, trace=trace, kinds=kinds, details=details,
                 exit_calls=rec.exit_calls,
-                err=err, others=others, viol=viol, secs=time.time() - t0,
+                err=err, others=others, viol=viol, secs=t_task,
                 obs=observe(idx, w, ref_w=None))
 
 
@@ -442,9 +584,11 @@ def complete_diff(path, refpath, ref_viol):
                 kk = [x for x in dr.logs.keys()
                       if _TS.sub("<ts>", x) == _TS.sub("<ts>", k)][0]
                 a, b = list(ds.logs[k]), list(dr.logs[kk])
+                if k.startswith("dclab-"):
+                    continue     # job info / warnings: content may vary
                 if len(a) != len(b):
                     return "log %s: %d vs %d lines" % (k, len(a), len(b))
-                if not k.startswith("dclab-") and a != b:
+                if a != b:
                     return "log %s differs" % k
             n = len(ds)
             for feat in ds.features_innate:
@@ -505,7 +649,7 @@ def observe(idx, w, ref_w, ref_viol=None):
 def fault_job(job):
     """Run case idx with a fault of `kind` at operation k in a forked child;
     inspect what is left behind."""
-    idx, k, kind = job
+    idx, k, kind = job[:3]
     case, info = CASES[idx], INFO[idx]
     d = _copy_template(idx)
     w = os.path.join(d, "w")
@@ -553,8 +697,34 @@ def fault_job(job):
         except Exception:
             child = {}
     obs = observe(idx, w, os.path.join(info["ref"], "w"), info["viol"])
+    restart = None
+    if len(job) > 3 and job[3]:
+        # run the task again, unharmed, on what the faulted run left behind
+        for f in ("child.json",):
+            try:
+                os.unlink(os.path.join(d, f))
+            except OSError:
+                pass
+        pid = os.fork()
+        if pid == 0:
+            code2 = 5
+            try:
+                devnull = os.open(os.devnull, os.O_WRONLY)
+                os.dup2(devnull, 1)
+                os.dup2(devnull, 2)
+                try:
+                    run_task(case, info["lay"], w)
+                    code2 = 0
+                except BaseException:  # noqa
+                    code2 = 4
+            finally:
+                os._exit(code2)
+        _, status = os.waitpid(pid, 0)
+        restart = dict(code=os.waitstatus_to_exitcode(status),
+                       obs=observe(idx, w, os.path.join(info["ref"], "w"),
+                                   info["viol"]))
     shutil.rmtree(d, ignore_errors=True)
-    return dict(job=job, code=code, child=child, obs=obs)
+    return dict(job=job, code=code, child=child, obs=obs, restart=restart)
 
 
 # --------------------------------------------------------------------------
@@ -715,7 +885,7 @@ def sample_ks(info, rng, thorough, budget):
 def judge(run, idx, res):
     """Model independent verdict on one fault run."""
     case, info = CASES[idx], INFO[idx]
-    _, k, kind = res["job"]
+    k, kind = res["job"][1], res["job"][2]
     obs = res["obs"]
     cdesc = case_desc(idx, k, kind)
     fails = []
@@ -729,7 +899,10 @@ def judge(run, idx, res):
     if obs["unexpected"]:
         fails.append("files outside the output/temporary names appeared: %s"
                      % obs["unexpected"][:4])
-    if case["task"] == "split":
+    if case["task"] == "split" and info.get("split_shape"):
+        # (C10_split_parts; only when the fault-free trace ends with the
+        # renames of parts 0..n-1 in order - Model.split_shape - otherwise the
+        # property does not demand an order)
         # parts are released in order: the new results present form a prefix
         # 0..j-1; every later part is not at its output path and (once
         # written) exists under its temporary name only
@@ -749,8 +922,10 @@ def judge(run, idx, res):
 
 def op_desc(info, k, kind=None):
     if kind in ("sigkill", "sigint", "sigterm"):
-        return "%s after %.1f%% of the fault-free duration" % (
-            kind.upper(), k / 10.0)
+        d = tuple(info["details"][k]) if 0 <= k < len(info["details"]) \
+            else ("?", "?", "?")
+        return "%s delivered during/after operation %d (%s %s %s)" % (
+            (kind.upper(), k) + d)
     if kind == "exit-raise":
         return "call %d of RTDCWriter.rectify_metadata/version_brand" % k
     if 0 <= k < len(info["details"]):
@@ -774,6 +949,15 @@ def run(run):
         _run(run)
     finally:
         shutdown()
+        if os.environ.get("VERIF_C10_TIMING"):
+            for f in run.oracle_fail[:12]:
+                sys.stderr.write("C10 oracle: %s | %s\n" % (
+                    f["desc"][:300], {k: v for k, v in f["case"].items()
+                                      if k != "inputs"}))
+            for m in run.corr_mismatch[:12]:
+                sys.stderr.write("C10 mismatch: %s | %s | %s | %s\n" % (
+                    m["what"][:200], m["model"], m["impl"],
+                    {k: v for k, v in m["case"].items() if k != "inputs"}))
 
 
 def _tick(run, what):
@@ -811,6 +995,10 @@ def _run(run):
         for i in range(nout):
             model += [m[4 + 2 * i], 1 if m[5 + 2 * i] else 0]
         # informational: the exact per-task shape (Model.strict_shape)
+        info["split_shape"] = (m[5 + 2 * nout] == 1)
+        info["reject_pos"] = m[2]
+        if case["task"] == "split" and info["err"] is None:
+            run.count("split-shape:%s" % info["split_shape"])
         if info["err"] is None:
             if m[4 + 2 * nout] == 1:
                 run.count("strict-shape-ok")
@@ -875,7 +1063,10 @@ def _run(run):
                 fails.append("temporary file %s left after a successful run"
                              % info["lay"]["temps"][i])
         if not all(ro["inputs_same"]):
-            fails.append("an input was modified by a successful run")
+            fails.append("a successful run modified or removed %s (inputs "
+                         "and bystander files must stay byte-identical)" % [
+                             p for p, ok in zip(info["lay"]["all_inputs"],
+                                                ro["inputs_same"]) if not ok])
         if ro["unexpected"]:
             fails.append("unexpected files %s" % ro["unexpected"][:4])
         for i, v in info["viol"].items():
@@ -933,7 +1124,22 @@ def _run(run):
     # order: whatever part is done when the time is up is a fair sample
     run.rng.shuffle(first)
     run.rng.shuffle(second)
-    jobs = first + second
+    # a trace the protocol rejects: faults around the rejected operation
+    # first (that is where a failing input is to be expected)
+    front = []
+    for idx, info in enumerate(INFO):
+        pos = info.get("reject_pos", -1)
+        if info["err"] is None and pos is not None and pos >= 0:
+            n = len(info["kinds"])
+            for k in range(max(0, pos - 3), min(n, pos + 6)):
+                front += [(idx, k, kind) for kind in ("kill", "raise",
+                                                      "raise-after")]
+    front = [j for j in front]
+    seen = set(front)
+    jobs = front + [j for j in first + second if j not in seen]
+    # every tenth fault run is followed by an unharmed re-run on the
+    # leftovers (C10_state_after_fault_is_restartable)
+    jobs = [j + (True,) if q % 10 == 3 else j for q, j in enumerate(jobs)]
     limit = float(os.environ.get("VERIF_C10_FAULT_SECS",
                                  "840" if run.thorough else "30"))
     t_start = time.time()
@@ -954,12 +1160,12 @@ def _run(run):
         if "crash" in res:
             run.broken.append(("harness(C10)", "fault run crashed: %s" %
                                res["crash"]))
-            jobs = [j for j in jobs if j != tuple(res["job"])]
+            jobs = [j for j in jobs if j[:3] != tuple(res["job"])[:3]]
         else:
             results.append(res)
     # deterministic order of evaluation / reporting
-    order = {j: n for n, j in enumerate(jobs)}
-    results.sort(key=lambda r: order.get(tuple(r["job"]), 0))
+    order = {j[:3]: n for n, j in enumerate(jobs)}
+    results.sort(key=lambda r: order.get(tuple(r["job"])[:3], 0))
     if len(results) < len(jobs):
         run.notes.append("fault enumeration stopped after %.0f s: %d of %d "
                          "sampled fault runs done (machine load)" % (
@@ -968,7 +1174,7 @@ def _run(run):
     _tick(run, "fault-runs(%d of %d)" % (len(results), len(jobs)))
     rendered = []
     for res in results:
-        idx, k, kind = res["job"]
+        idx, k, kind = res["job"][:3]
         nin = len(INFO[idx]["lay"]["ins"])
         if kind == "exit-raise":
             # the model sees it as a failure of the operation that would
@@ -992,7 +1198,7 @@ def _run(run):
         shard=250)
     _tick(run, "model-predictions")
     for res, m in zip(results, pred):
-        idx, k, kind = res["job"]
+        idx, k, kind = res["job"][:3]
         case, info = CASES[idx], INFO[idx]
         obs = res["obs"]
         fired = (res["code"] != 0) or res["child"].get("fired", False)
@@ -1004,25 +1210,50 @@ def _run(run):
         run.count("child-exit:%s" % res["code"])
         judge(run, idx, res)
         nout = len(info["lay"]["outs"])
+        # a task may remove its temporary file when it fails (the property
+        # allows that): the temporary name is compared for kills only
+        cmp_tmp = (kind == "kill")
         impl = []
         for i in range(nout):
-            impl += [obs["out"][i], obs["tmp"][i]]
+            impl += [obs["out"][i], obs["tmp"][i] if cmp_tmp else -1]
         # the model speaks about the task's input files only
         lay = info["lay"]
         impl += [1 if obs["inputs_same"][lay["all_inputs"].index(p)] else 0
                  for p in lay["ins"]]
         model = []
         for i in range(nout):
-            model += [m[2 * i], 1 if m[2 * i + 1] else 0]
+            model += [m[2 * i], (1 if m[2 * i + 1] else 0) if cmp_tmp else -1]
         model += m[2 * nout:]
         # Model.unwind: after the failing operation only writes to / closes
         # of files that are open happen (no handler opens, renames, deletes)
         bad_after = [a for a in res["child"].get("after", [])
                      if a[0] in ("rename", "unlink", "open-w", "open-a",
-                                 "open-r")]
+                                 "open-r")
+                     and not (a[0] == "unlink" and a[1] in lay["temps"])]
         if kind != "kill" and bad_after and res["code"] != 0:
             model = model + ["unwind: only writes and closes"]
             impl = impl + ["unwind performed %s" % bad_after[:3]]
+        rs = res.get("restart")
+        if rs is not None:
+            # second, unharmed run on the leftovers
+            run.count("restart-runs")
+            judge(run, idx, dict(job=(idx, k, kind + "+rerun"), obs=rs["obs"],
+                                 code=rs["code"], child={}))
+            # model: the aged state is a legal start (rerun_ready), so a
+            # task with setup succeeds; split refuses while a temporary
+            # file of its own is left
+            expect_ok = not (case["task"] == "split" and any(obs["tmp"]))
+            got_ok = (rs["code"] == 0 and all(v == 2 for v in rs["obs"]["out"])
+                      and not any(rs["obs"]["tmp"]))
+            run.corr_checked += 1
+            if expect_ok and not got_ok:
+                run.mismatch(dict(cd, rerun=True),
+                             ["rerun completes", [2] * nout],
+                             ["exit %s" % rs["code"], rs["obs"]["out"],
+                              rs["obs"]["tmp"], rs["obs"]["why"][:2]],
+                             what="re-running the task on what the fault "
+                                  "left behind does not give the complete "
+                                  "result")
         run.corr_checked += 1
         if model != impl:
             run.mismatch(cd, model, impl,
@@ -1035,13 +1266,15 @@ def _run(run):
 # asynchronous SIGKILL (not at an operation boundary): oracle only
 # --------------------------------------------------------------------------
 def sigkill_job(job):
-    """Run the task unmodified in a child and SIGKILL it after a fraction of
-    its fault-free duration - possibly in the middle of an HDF5 call."""
+    """Run the task in a child that sends itself SIGKILL / SIGTERM / SIGINT
+    from a timer thread started when operation k begins (delay 0..2 ms): the
+    signal lands inside or right after that h5py/os call - not at an
+    operation boundary like the os._exit faults."""
     import signal
-    idx, permille = job[0], job[1]
+    idx, k = job[0], job[1]
     signame = job[2] if len(job) > 2 else "sigkill"
-    signum = dict(sigkill=signal.SIGKILL, sigint=signal.SIGINT,
-                  sigterm=signal.SIGTERM)[signame]
+    delay = (job[3] if len(job) > 3 else 300) / 1e6
+    sig = dict(sigkill="SIGKILL", sigint="SIGINT", sigterm="SIGTERM")[signame]
     case, info = CASES[idx], INFO[idx]
     d = _copy_template(idx)
     w = os.path.join(d, "w")
@@ -1052,49 +1285,65 @@ def sigkill_job(job):
     if pid == 0:
         code = 5
         try:
+            devnull = os.open(os.devnull, os.O_WRONLY)
+            os.dup2(devnull, 1)
+            os.dup2(devnull, 2)
             # SIGINT -> KeyboardInterrupt unwinds through the with blocks;
             # SIGTERM has its default action (the CLI installs no handler)
             signal.signal(signal.SIGINT, signal.default_int_handler)
             signal.signal(signal.SIGTERM, signal.SIG_DFL)
-            devnull = os.open(os.devnull, os.O_WRONLY)
-            os.dup2(devnull, 1)
-            os.dup2(devnull, 2)
+            ct.install()
+            rec = ct.Recorder(w, fault_at=k, fault_kind="signal:" + sig)
+            rec.signal_delay = delay
+            ct.set_recorder(rec)
             try:
                 run_task(case, info["lay"], w)
+                # give a late signal the chance to arrive
+                time.sleep(delay + 0.05)
                 code = 0
             except BaseException:  # noqa
                 code = 4
         finally:
             os._exit(code)
-    time.sleep(max(0.0, info["secs"] * permille / 1000.0))
-    try:
-        os.kill(pid, signum)
-    except ProcessLookupError:
-        pass
     _, status = os.waitpid(pid, 0)
     code = os.waitstatus_to_exitcode(status)
     obs = observe(idx, w, os.path.join(info["ref"], "w"), info["viol"])
     shutil.rmtree(d, ignore_errors=True)
-    return dict(job=(idx, permille, signame), code=code, child={}, obs=obs,
+    return dict(job=(idx, k, signame), code=code, child={}, obs=obs,
                 secs=time.time() - t0)
 
 
 def sigkill_runs(run):
     n = 600 if run.thorough else 60
     ok = [i for i, info in enumerate(INFO) if info["err"] is None]
-    jobs = [(run.rng.choice(ok), run.rng.randint(0, 1300),
-             ("sigkill", "sigint", "sigterm")[q % 3]) for q in range(n)]
+    jobs = []
+    for q in range(n):
+        idx = run.rng.choice(ok)
+        kinds = INFO[idx]["kinds"]
+        struct = [k for k, kd in enumerate(kinds)
+                  if kd in ("close", "rename", "open-a", "open-w", "copy",
+                            "dset-create")]
+        k = run.rng.choice(struct) if struct and run.rng.random() < 0.5 \
+            else run.rng.randrange(len(kinds))
+        jobs.append((idx, k, ("sigkill", "sigint", "sigterm")[q % 3],
+                     run.rng.choice([0, 50, 200, 500, 1000, 2000])))
+    real = 0
     for res in pmap("sigkill_job", jobs):
         if "crash" in res:
-            run.broken.append(("harness(C10)", "sigkill run crashed: %s" %
+            run.broken.append(("harness(C10)", "signal run crashed: %s" %
                                res["crash"]))
             continue
-        idx, permille, kind = res["job"]
-        cd = case_desc(idx, permille, kind)
+        idx, k, kind = res["job"]
+        cd = case_desc(idx, k, kind)
+        real += res["code"] != 0
         run.record_case(cd, res["code"] != 0, sample=False)
         run.count("fault:%s" % kind)
         run.count("%s-exit:%s" % (kind, res["code"]))
         judge(run, idx, res)
+    run.extra["signals_effective"] = "%d of %d" % (real, len(jobs))
+    if real < 0.8 * len(jobs):
+        run.notes.append("only %d of %d signal runs interrupted the task" % (
+            real, len(jobs)))
 
 
 # --------------------------------------------------------------------------
@@ -1122,85 +1371,172 @@ def gen_name(rng):
 
 
 def names_check(run):
-    """common.setup_task_paths on generated output names against the model
-    of pathlib's suffix arithmetic."""
+    """common.setup_task_paths on generated input/output paths against the
+    model (Model/C10_paths.v: suffix arithmetic, resolved directories,
+    refusal when the output or its temporary path is an input)."""
     from dclab.cli import common as cli_common
     n = 3000 if run.thorough else 300
-    d = pathlib.Path(run.scratch) / "names"
-    d.mkdir(exist_ok=True)
-    names, impl = [], []
+    d = pathlib.Path(os.path.realpath(run.scratch)) / "names"
+    (d / "A" / "_sub").mkdir(parents=True, exist_ok=True)
+    (d / "B").mkdir(exist_ok=True)
+    if not (d / "L").is_symlink():
+        os.symlink(d / "A", d / "L")
     content = b"\x89HDF\r\n\x1a\n input data " * 7
-    for q in range(n):
-        name = gen_name(run.rng)
-        if q % 3 == 0:
-            # stem of the input, arbitrary suffix: legal, must not alias
-            name = "in" + run.rng.choice(ALIAS_SUFFIXES + ["", ".rtdc"] + [
-                "." + "".join(run.rng.choice("abrtdc.") for _ in range(
-                    run.rng.randint(1, 5))) + "x"])
-        (d / "in.rtdc").write_bytes(content)
-        lost = None
-        refused = None
-        try:
-            pin, pout, ptmp = cli_common.setup_task_paths(
-                d / "in.rtdc", d / name, allowed_input_suffixes=[".rtdc"])
-        except ValueError as e:
-            refused = e
-        if not (d / "in.rtdc").exists() or \
-                (d / "in.rtdc").read_bytes() != content:
-            lost = ("setup_task_paths(in.rtdc -> %r) removed or changed "
-                    "the input file in.rtdc" % name)
-        case = dict(kind="names", name=name)
-        must_refuse = predicted_out_name(name) == "in.rtdc"
-        if lost:
-            run.oracle_failure(case, lost, None)
-        if must_refuse and refused is None:
-            run.oracle_failure(case, "output %r becomes the input in.rtdc "
-                               "but setup_task_paths did not refuse" % name,
-                               None)
-        if refused is not None and not must_refuse:
-            run.oracle_failure(case, "setup_task_paths refused the legal "
-                               "output name %r (%r)" % (name, refused), None)
-        if refused is not None:
-            run.count("names:refused")
-            run.record_case(case, True, sample=False)
-            names.append(name)
-            impl.append([-2])
-            continue
-        if pout.name != predicted_out_name(name):
-            run.oracle_failure(
-                case,
-                "requested output %r is written to %r, the name theorems "
-                "predict %r" % (name, pout.name, predicted_out_name(name)),
-                None)
-        names.append(name)
-        impl.append([ord(c) for c in pout.name] + [-1]
-                    + [ord(c) for c in ptmp.name])
-        case = dict(kind="names", name=name)
-        run.record_case(case, "." in name, sample=False)
-        run.count("names")
-        # model independent: what the property needs of the names
-        bad = []
-        if ptmp.name != pout.name + "~":
-            bad.append("temporary name %r is not output name %r + '~'" % (
-                ptmp.name, pout.name))
-        if ptmp.suffix in (".rtdc", ".tdms") or ptmp == pout or ptmp == pin:
-            bad.append("temporary name %r can collide with an input or "
-                       "output" % ptmp.name)
-        if pout.suffix != ".rtdc" or pout.parent != d:
-            bad.append("output %r" % (pout,))
-        if bad:
-            run.oracle_failure(case, "; ".join(bad), None)
-    inp = common.zlist([ord(c) for c in "in.rtdc"])
-    model = common.coq_map(run.scratch, "c10names", NAMES_HEADER,
-                           "setup_paths_flat",
-                           ["(%s, %s)" % (inp,
-                                          common.zlist([ord(c) for c in nm]))
-                            for nm in names])
-    for nm, m, i in zip(names, model, impl):
+    # the ways of writing directory A (id 1) and B (id 2)
+    forms = [("A", 1), ("A/.", 1), ("A/_sub/..", 1), ("L", 1), ("B", 2),
+             ("B/../A", 1), ("rel:A", 1), ("rel:L/_sub/..", 1), ("rel:B", 2)]
+    cases, impl, rendered = [], [], []
+    cwd = os.getcwd()
+    fixed = []
+    cdir = os.path.join(common.VERIF, "corpus", PROP)
+    for fn in sorted(os.listdir(cdir)) if os.path.isdir(cdir) else []:
+        if fn.endswith(".json"):
+            c = json.load(open(os.path.join(cdir, fn)))["case"]
+            if c.get("kind") == "names":
+                fixed.append(c)
+    try:
+        for q in range(-len(fixed), n):
+            if q < 0:
+                case = dict(dict(inputs=["in.rtdc"], form_in="A",
+                                 form_out="A"), **fixed[q + len(fixed)])
+                dout = dict(forms)[case["form_out"]]
+                name, in_names = case["name"], case["inputs"]
+                res = names_run(cli_common, d, case, content)
+                cases.append(case)
+                run.record_case(case, True, sample=False)
+                run.count("names:corpus")
+                for f in res["fails"]:
+                    run.oracle_failure(case, f, None)
+                impl.append(res["flat"])
+                rendered.append("(%s, (%d, %s))" % (
+                    common.clist(["(1, %s)" % common.zlist(
+                        [ord(c) for c in nm]) for nm in in_names]),
+                    dout, common.zlist([ord(c) for c in name])))
+                continue
+            name = gen_name(run.rng)
+            in_names = ["in.rtdc"]
+            if q % 3 == 0:
+                # stem of the input, arbitrary suffix
+                name = "in" + run.rng.choice(ALIAS_SUFFIXES + ["", ".rtdc"] + [
+                    "." + "".join(run.rng.choice("abrtdc.") for _ in range(
+                        run.rng.randint(1, 5))) + "x"])
+            if q % 7 == 0:
+                # check_suffix=False: any input name, e.g. the temporary
+                # name of the output
+                in_names = [run.rng.choice(["in.rtdc~", "in", "in.h5",
+                                            "in.x.rtdc~", "in.tdms"])]
+                if run.rng.random() < 0.5:
+                    name = "in" + run.rng.choice(["", ".rtdc", ".x", ".x.rtdc"])
+            if q % 5 == 0:
+                in_names.append("in2.rtdc")          # list of inputs (join)
+            fin, din = run.rng.choice([f for f in forms if f[1] == 1])
+            fout, dout = run.rng.choice(forms)
+            case = dict(kind="names", name=name, inputs=in_names, form_in=fin,
+                        form_out=fout)
+            res = names_run(cli_common, d, case, content)
+            cases.append(case)
+            run.record_case(case, "." in name, sample=False)
+            run.count("names")
+            run.count("names:form:%s" % fout)
+            for f in res["fails"]:
+                run.oracle_failure(case, f, None)
+            if res["refused"]:
+                run.count("names:refused")
+            impl.append(res["flat"])
+            rendered.append("(%s, (%d, %s))" % (
+                common.clist(["(1, %s)" % common.zlist([ord(c) for c in nm])
+                              for nm in in_names]),
+                dout, common.zlist([ord(c) for c in name])))
+    finally:
+        os.chdir(cwd)
+    model = common.coq_map(
+        run.scratch, "c10names", NAMES_HEADER,
+        "(fun q : list fpath * (Z * list Z) => "
+        "match setup_paths_at (fst q) (fst (snd q)) (snd (snd q)) with "
+        "| None => [-2] | Some (o, t) => snd o ++ [-1] ++ snd t end)",
+        rendered)
+    for c, m, i in zip(cases, model, impl):
         run.corr_checked += 1
         if m != i:
-            run.mismatch(dict(kind="names", name=nm), m, i,
-                         what="setup_task_paths names")
+            run.mismatch(c, m, i, what="setup_task_paths names / refusal")
+    # the suffix check on inputs (Model.allowed_input)
+    sfx_names = [gen_name(run.rng) for _ in range(40)] + [
+        "a.rtdc", "a.tdms", "a.rtdc~", "a", ".rtdc", "a.RTDC", "a.b.tdms"]
+    got = []
+    for nm in sfx_names:
+        try:
+            cli_common.setup_task_paths(d / "B" / nm, d / "A" / "o.rtdc",
+                                        allowed_input_suffixes=[".rtdc",
+                                                                ".tdms"])
+            got.append([1])
+        except ValueError:
+            got.append([0])
+    want = common.coq_map(run.scratch, "c10sfx", NAMES_HEADER,
+                          "(fun nm => [if allowed_input nm then 1 else 0])",
+                          [common.zlist([ord(c) for c in nm])
+                           for nm in sfx_names])
+    for nm, m, i in zip(sfx_names, want, got):
+        run.corr_checked += 1
+        run.count("names:suffix-check")
+        if m != i:
+            run.mismatch(dict(kind="names-suffix", name=nm), m, i,
+                         what="input suffix check")
+
+
+def names_run(cli_common, d, case, content):
+    """One call of setup_task_paths on real files; model independent verdict
+    + flat observation ([-2] refused | out name ++ [-1] ++ temp name)."""
+    def styled(form, nm):
+        if form.startswith("rel:"):
+            os.chdir(d)
+            return pathlib.Path(form[4:]) / nm
+        return d / form / nm
+    name, in_names = case["name"], case["inputs"]
+    for nm in in_names:
+        (d / "A" / nm).write_bytes(content)
+    same_dir = os.path.realpath(d / case["form_out"].replace("rel:", "")) \
+        == os.path.realpath(d / "A")
+    pred = predicted_out_name(name)
+    must_refuse = same_dir and any(pred == nm or pred + "~" == nm
+                                   for nm in in_names)
+    pins = [styled(case["form_in"], nm) for nm in in_names]
+    allowed = [".rtdc"] + [pathlib.PurePosixPath(nm).suffix
+                           for nm in in_names]
+    fails, refused, flat = [], None, [-2]
+    try:
+        pin, pout, ptmp = cli_common.setup_task_paths(
+            pins if len(pins) > 1 else pins[0], styled(case["form_out"], name),
+            allowed_input_suffixes=allowed)
+    except ValueError as e:
+        refused = e
+    for nm in in_names:
+        f = d / "A" / nm
+        if not f.exists() or f.read_bytes() != content:
+            fails.append("setup_task_paths(%s -> %s/%r) removed or changed "
+                         "the input file %s" % (in_names, case["form_out"],
+                                                name, nm))
+    if must_refuse and refused is None:
+        fails.append("output %r (or its temporary name) is the input %s but "
+                     "setup_task_paths did not refuse" % (name, in_names))
+    if refused is not None and not must_refuse:
+        fails.append("setup_task_paths refused the legal output %s/%r for "
+                     "inputs %s (%r)" % (case["form_out"], name, in_names,
+                                         refused))
+    if refused is None:
+        flat = [ord(c) for c in pout.name] + [-1] + [ord(c) for c in ptmp.name]
+        if pout.name != pred:
+            fails.append("requested output %r is written to %r, the name "
+                         "theorems predict %r" % (name, pout.name, pred))
+        if ptmp == pout or ptmp.parent != pout.parent \
+                or ptmp.suffix in (".rtdc", ".tdms"):
+            fails.append("temporary path %s can collide with an input or "
+                         "the output %s" % (ptmp, pout))
+    for nm in in_names:
+        try:
+            (d / "A" / nm).unlink()
+        except OSError:
+            pass
+    return dict(fails=fails, refused=refused is not None, flat=flat)
 
 
 # --------------------------------------------------------------------------
@@ -1215,12 +1551,18 @@ def natural_failures(run):
             jobs.append((idx, "truncated-input"))
         if case["task"] == "split":
             jobs.append((idx, "stale-temp"))
-        if "inputs" in case and case["task"] in ("compress", "repack",
-                                                 "condense", "join"):
+        if "inputs" in case and not case.get("in_names") \
+                and case["task"] in ("compress", "repack", "condense",
+                                     "join"):
             # `repack in0.rtdc in0` / `repack in0.rtdc in0.rtdc`: the
             # corrected output name is an input: the task must refuse
             jobs.append((idx, run.rng.choice(["alias-output",
                                               "same-path"])))
+        if "inputs" in case and case["task"] in ("compress", "repack",
+                                                 "condense"):
+            # check_suffix=False and the input is named like the temporary
+            # file of the output (x.rtdc~ -> x.rtdc): must refuse as well
+            jobs.append((idx, "temp-alias"))
     for res in pmap("natural_job", jobs):
         if "crash" in res:
             run.broken.append(("harness(C10)", "natural-failure run crashed: "
@@ -1255,8 +1597,16 @@ def natural_job(job):
         pre["__tmp__"] = sha(t)
     if what in ("alias-output", "same-path"):
         last = lay["ins"][-1]
-        lay = dict(lay, req=[last[:-len(".rtdc")] if what == "alias-output"
-                             else last])
+        stem = last[:-len(".rtdc")] if last.endswith(".rtdc") else last
+        lay = dict(lay, req=[stem if what == "alias-output" else last])
+    if what == "temp-alias":
+        shutil.copyfile(os.path.join(w, lay["ins"][-1]),
+                        os.path.join(w, "zz.rtdc~"))
+        pre["zz.rtdc~"] = sha(os.path.join(w, "zz.rtdc~"))
+        lay = dict(lay, ins=["zz.rtdc~"], req=["zz.rtdc"],
+                   all_inputs=list(lay["all_inputs"]) + ["zz.rtdc~"])
+        case = dict(case, params=dict(case["params"], check_suffix=False,
+                                      via_argv=False))
     before = sorted(os.path.relpath(os.path.join(dp, f), w)
                     for dp, _dn, fs in os.walk(w) for f in fs)
     failed = False
@@ -1267,15 +1617,13 @@ def natural_job(job):
         failed = True
         exc = e
     fails = []
-    if what in ("alias-output", "same-path"):
+    if what in ("alias-output", "same-path", "temp-alias"):
         after = sorted(os.path.relpath(os.path.join(dp, f), w)
                        for dp, _dn, fs in os.walk(w) for f in fs)
         if not failed:
-            fails.append("the task did not refuse an output path that is "
-                         "its input %s" % lay["req"])
-        elif not isinstance(exc, ValueError):
-            fails.append("the task failed with %r instead of refusing" %
-                         (exc,))
+            fails.append("the task did not refuse an output/temporary path "
+                         "that is its input (input %s, output %s)" % (
+                             lay["ins"], lay["req"]))
         if after != before:
             fails.append("files changed although the task had to refuse: "
                          "%s -> %s" % (before, after))
@@ -1299,7 +1647,7 @@ def natural_job(job):
             fails.append("output %s is not loadable: %r" % (o, e))
     for p in lay["all_inputs"]:
         q = os.path.join(w, p)
-        want = pre.get(p, lay["in_sha"][p])
+        want = pre.get(p) or lay["in_sha"][p]
         if not (os.path.isfile(q) and sha(q) == want):
             fails.append("input %s was modified" % p)
     if what == "stale-temp" and not failed:
@@ -1383,8 +1731,9 @@ def strace_job(idx):
         if not m or int(m.group(3)) < 0:
             continue
         call, args = m.group(1), m.group(2)
-        paths = [os.path.realpath(x) for x in re.findall(r'"((?:[^"\\]|\\.)*)"',
-                                                         args)]
+        paths = [os.path.realpath(x if os.path.isabs(x)
+                                  else os.path.join(w, x))
+                 for x in re.findall(r'"((?:[^"\\]|\\.)*)"', args)]
         paths = [x for x in paths if x.startswith(w + os.sep)]
         if not paths:
             continue
@@ -1466,32 +1815,25 @@ def replay(payload):
         d = pathlib.Path(tempfile.mkdtemp(
             prefix="verif-C10-names-",
             dir=os.environ.get("VERIF_SCRATCH", "/var/tmp")))
+        d = pathlib.Path(os.path.realpath(d))
+        cwd = os.getcwd()
         try:
-            (d / "in.rtdc").write_bytes(b"input data")
-            must_refuse = predicted_out_name(case["name"]) == "in.rtdc"
-            try:
-                pin, pout, ptmp = cli_common.setup_task_paths(
-                    d / "in.rtdc", d / case["name"],
-                    allowed_input_suffixes=[".rtdc"])
-                print("input in.rtdc, requested output %r -> output %r, "
-                      "temporary %r (predicted output %r)" % (
-                          case["name"], pout.name, ptmp.name,
-                          predicted_out_name(case["name"])))
-                bad = (must_refuse or ptmp.name != pout.name + "~"
-                       or pout.name != predicted_out_name(case["name"]))
-            except ValueError as e:
-                print("input in.rtdc, requested output %r: refused (%s); "
-                      "refusal expected: %s" % (case["name"], e, must_refuse))
-                bad = not must_refuse
-            gone = not (d / "in.rtdc").exists()
-            if gone:
-                print("the input file in.rtdc was removed by "
-                      "setup_task_paths")
-            bad = bad or gone
+            (d / "A" / "_sub").mkdir(parents=True)
+            (d / "B").mkdir()
+            os.symlink(d / "A", d / "L")
+            case = dict(dict(inputs=["in.rtdc"], form_in="A", form_out="A"),
+                        **case)
+            res = names_run(cli_common, d, case, b"input data")
+            print("case:", json.dumps(case))
+            print("refused:", res["refused"], "observation:", res["flat"])
+            for f in res["fails"]:
+                print("FAILS:", f)
         finally:
+            os.chdir(cwd)
             shutil.rmtree(d, ignore_errors=True)
-        print("FAILS" if bad else "passes on the current tree")
-        return 1 if bad else 0
+        if not res["fails"]:
+            print("passes on the current tree")
+        return 1 if res["fails"] else 0
     if not case or "task" not in case:
         print("replay: nothing executable in this file (kind=%s): %s" % (
             payload.get("kind"), json.dumps(payload.get("broken"))[:2000]))
